@@ -54,6 +54,7 @@ void fsv_harness(void)
       FSV_ASSERT(want == got, "donor table is the inverse of the receiver table (with multiplicity)");
     }
   }
+#if !defined(PART) || PART == 1
   /* bottom-up order: permutation, every node after each of its receivers */
   uint64_t pos[N];
   for (int i = 0; i < N; i++) pos[i] = N;
@@ -62,6 +63,8 @@ void fsv_harness(void)
     uint64_t r = in_rec[i * R + k];
     if (r != (uint64_t)i) FSV_ASSERT(pos[r] < pos[i], "bottom-up order lists every node after each of its receivers");
   }
+#endif
+#if !defined(PART) || PART == 2
   /* breadth-first order: permutation partitioned into non-empty levels; receivers in strictly earlier levels */
   uint64_t bpos[N], lev[N];
   for (int i = 0; i < N; i++) bpos[i] = N;
@@ -77,5 +80,6 @@ void fsv_harness(void)
       if (r != (uint64_t)i) FSV_ASSERT(lev[r] < lev[i], "every receiver lies in a strictly earlier breadth-first level");
     }
   }
+#endif
   FSV_END();
 }
